@@ -143,6 +143,25 @@ func (g *gen) enumerate() []Case {
 		}
 	}
 
+	// ---- strings with blanks against literals spelled with the same / different blanks
+	for env := 0; env < nEnvs; env++ {
+		for i, x := range blankPaths {
+			lits := append([]string{blanks[env][i]}, blankLits...)
+			for j, l := range lits {
+				q := []string{"d", "s"}[(i+j)%2]
+				addE(env, bin("==", p(x), ls(l, q)))
+				addE(env, bin("!=", p(x), ls(l, q)))
+			}
+			addE(env, Expr{K: "tern", A: []Expr{bin("==", p(x), ls(blanks[env][i], "s")), ls("Y", "s"), ls("N", "s")}})
+			addE(env, bin("+", p(x), ls("a  b", "d")))
+		}
+		for _, z := range zeroLedStrs {
+			addE(env, call("int", p(z)))
+			addE(env, bin("+", call("int", p(z)), li("1")))
+			addE(env, call("add", p(z), li("1")))
+		}
+	}
+
 	// ---- variables named like template functions: alone and under every kind of operator
 	fs := func(x string) Expr { return ls(x, "s") }
 	addFn := func(e Expr) {
@@ -194,9 +213,13 @@ func (g *gen) enumerate() []Case {
 			{K: "int", V: "7"}, {K: "int", V: "-3"}, {K: "float", V: "1.5"},
 			{K: "path", V: "h"}, {K: "path", V: "m.name"}, {K: "path", V: "a"}, {K: "path", V: "big"}, {K: "path", V: "f"},
 		},
-		"int":     {{K: "int", V: "3"}, {K: "int", V: "-3"}, {K: "str", V: "42", Q: "d"}, {K: "str", V: "7", Q: "s"}, {K: "path", V: "b"}, {K: "path", V: "num"}, {K: "path", V: "big"}, {K: "path", V: "m.k"}},
-		"float64": {{K: "float", V: "0.5"}, {K: "int", V: "2"}, {K: "str", V: "2.5", Q: "d"}, {K: "str", V: "7", Q: "s"}, {K: "path", V: "g"}, {K: "path", V: "a"}, {K: "path", V: "num"}, {K: "path", V: "big"}},
-		"bool":    {{K: "bool", V: "true"}, {K: "bool", V: "false"}, {K: "path", V: "t"}, {K: "path", V: "u"}, {K: "path", V: "m.ok"}},
+		"int": {{K: "int", V: "3"}, {K: "int", V: "-3"}, {K: "str", V: "42", Q: "d"}, {K: "str", V: "7", Q: "s"}, {K: "path", V: "b"}, {K: "path", V: "num"}, {K: "path", V: "big"}, {K: "path", V: "m.k"},
+			{K: "str", V: "010", Q: "d"}, {K: "str", V: "08", Q: "s"}, {K: "str", V: "007", Q: "d"}, {K: "str", V: "0", Q: "s"}, {K: "path", V: "z10"}, {K: "path", V: "z08"}, {K: "path", V: "z007"}, {K: "path", V: "z0s"}},
+		"uint": {{K: "int", V: "3"}, {K: "str", V: "42", Q: "d"}, {K: "str", V: "010", Q: "s"}, {K: "str", V: "08", Q: "d"}, {K: "str", V: "007", Q: "s"}, {K: "str", V: "0", Q: "d"},
+			{K: "path", V: "b"}, {K: "path", V: "num"}, {K: "path", V: "big"}, {K: "path", V: "z10"}, {K: "path", V: "z08"}},
+		"float64": {{K: "float", V: "0.5"}, {K: "int", V: "2"}, {K: "str", V: "2.5", Q: "d"}, {K: "str", V: "7", Q: "s"}, {K: "path", V: "g"}, {K: "path", V: "a"}, {K: "path", V: "num"}, {K: "path", V: "big"},
+			{K: "str", V: "010", Q: "d"}, {K: "str", V: "08", Q: "s"}, {K: "path", V: "z10"}, {K: "path", V: "z08"}},
+		"bool": {{K: "bool", V: "true"}, {K: "bool", V: "false"}, {K: "path", V: "t"}, {K: "path", V: "u"}, {K: "path", V: "m.ok"}},
 		"any": {{K: "str", V: "abc", Q: "d"}, {K: "str", V: "two words", Q: "s"}, {K: "int", V: "7"}, {K: "float", V: "1.5"}, {K: "bool", V: "true"},
 			{K: "path", V: "a"}, {K: "path", V: "f"}, {K: "path", V: "s"}, {K: "path", V: "t"}, {K: "path", V: "big"}},
 	}
@@ -255,7 +278,7 @@ func (g *gen) enumerate() []Case {
 			}
 			emit(base)
 			// vary one argument at a time over all its sources (init fixed to limit the product)
-			if init == "a" || init == "s" || init == "num" || init == "f" || init == "t" || init == "big" {
+			if init == "a" || init == "s" || init == "num" || init == "f" || init == "t" || init == "big" || init == "z10" {
 				for i := 1; i < np; i++ {
 					if n == "failif" {
 						continue
@@ -297,7 +320,7 @@ func (g *gen) enumerate() []Case {
 			if f.variadic {
 				continue
 			}
-			okInit := map[string]string{"string": "s", "int": "a", "int64": "a", "float64": "f", "bool": "t", "any": "s"}[f.params[0]]
+			okInit := map[string]string{"string": "s", "int": "a", "int64": "a", "uint": "a", "float64": "f", "bool": "t", "any": "s"}[f.params[0]]
 			np := len(f.params)
 			one := func(pt string) Arg {
 				if pt == "bool" {
@@ -329,6 +352,29 @@ func (g *gen) enumerate() []Case {
 			}
 			if f.params[0] != "bool" {
 				addErr("conversion", n, "s", more, form)
+			}
+		}
+		// texts that are not decimal numbers: piped, and as a quoted / variable argument
+		for _, n := range []string{"add", "isBig", "dbl64", "udbl", "half", "scale", "sum", "ctxadd"} {
+			f := funcs[n]
+			var more []Arg
+			for i := 1; i < len(f.params); i++ {
+				more = append(more, srcs[f.params[i]][0])
+			}
+			for _, init := range badNumPaths {
+				v, _ := resolve(env, init)
+				if _, st := convert(v, f.params[0]); st == convImpossible {
+					addErr("conversion", n, init, more, form)
+				}
+			}
+			if len(f.params) > 1 {
+				okInit := map[string]string{"int": "a", "float64": "f"}[f.params[0]]
+				for i, l := range badNumLits {
+					if _, st := convert(l, f.params[1]); st == convImpossible {
+						addErr("conversion", n, okInit, []Arg{{K: "str", V: l, Q: []string{"d", "s"}[i%2]}}, form)
+						addErr("conversion", n, okInit, []Arg{{K: "path", V: badNumPaths[i]}}, form)
+					}
+				}
 			}
 		}
 		addErr("conversion", "add", "a", []Arg{{K: "path", V: "ss"}}, form)
